@@ -120,6 +120,9 @@ C_RcptReject == IsEv("RcptReject") /\ RcptReject(Ev.m, Ev.d)
 \* a further recipient on a connection the delivery already has: no limit operation
 C_MoreRcpt == /\ IsEv("MoreRcpt") /\ Remote /\ Settled /\ pc[Ev.m] = "idle" /\ Ev.d \in held[Ev.m].dst
               /\ Ev.res # "panic" /\ UNCHANGED vars
+\* the harness held a caller up right after its bucket granted the permit / let it go on
+C_Yield == IsEv("Yield") /\ Ev.s \in BScopes /\ Park(Ev.m, Ev.s)
+C_Resume == IsEv("Resume") /\ Unpark(Ev.m)
 C_Fill == /\ IsEv("Fill") /\ Ev.panics = 0 /\ Ev.errs = 0 /\ Ev.len = cfg.mb + 1
           /\ Fill(Ev.s)
 
@@ -137,7 +140,7 @@ C_Quiesced ==
 C_Step ==
   /\ ~mon
   /\ \/ C_Silent
-     \/ /\ (C_Call \/ C_Ret \/ C_Tick \/ C_Minute \/ C_Fill \/ C_MailReject \/ C_RcptReject \/ C_MoreRcpt \/ C_NestedMail \/ C_Snap \/ C_Quiesced)
+     \/ /\ (C_Call \/ C_Ret \/ C_Tick \/ C_Minute \/ C_Fill \/ C_MailReject \/ C_RcptReject \/ C_MoreRcpt \/ C_NestedMail \/ C_Yield \/ C_Resume \/ C_Snap \/ C_Quiesced)
         /\ l' = l + 1 /\ UNCHANGED <<mon, tno>>
         /\ HighWater
 
